@@ -280,6 +280,23 @@ package service
 //@   ensures [monotone] forall a Bytes, k Bytes :: @beval(@select(@select(ghost(adata), a), k)) >= old(@beval(@select(@select(ghost(adata), a), k)))
 //@   modifies ghost(adata), ghost(acct), ghost(stor), ghost(stver)
 
+// Paying out the schedule of a height (C01): the due credits come back from the state as a Go map and are paid
+// in Go's map order; balances and the schedule's slots must not depend on that order.
+//@ type refundMap = map[common.Address]*big.Int
+//@ func ext_getAllRefund
+//@   option trusted extern=(*com.tuntun.rangers/node/src/storage/account.AccountDB).GetAllRefund
+//@   ensures [values] forall a common.Address :: has(result, a) ==> result[a] != nil
+//@   ensures fresh(result)
+//@   modifies ghost(acct)
+
+//@ func RefundManager.CheckAndMove
+//@   property C01
+//@   option maporder
+//@   requires [singletons!init] refund != nil && refund.logger != nil
+//@   loop 0: invariant forall a common.Address :: has(refundList, a) ==> refundList[a] != nil
+//@   loop 0: commutes on ghost(bal), ghost(supply), ghost(adata)
+//@   modifies ghost(bal), ghost(supply), ghost(adata), ghost(acct), ghost(stor), ghost(stver)
+
 // Reorg (C17): the transactions of a removed block are taken out of the executed database and become pending
 // again (whatever was pending stays pending).
 //@ func ext_mysqlDeleteLogs
